@@ -11,14 +11,14 @@ _MACHINE = (
     "name; connection between existing objects incl. parallel), Set (label with fresh marker + hostile suffix, raw label values, md block string; "
     "shape, 18 style keywords, width/height, near, link, tooltip, arrowhead shape/label/filled with in-domain values), Delete (object, container, "
     "connection, attribute), Rename (fresh / colliding name), Move (into / out of containers, +-includeDescendants, same or new name, never into its "
-    "own subtree), ReconnectEdge, UpdateImport (remove / re-path), each addressed to the root or a nested board. names: 25 plain, 125 from "
-    "gen.HostileNames (minus reserved-keyword spellings, minus newline/empty). after every successful edit the state is recompiled from "
+    "own subtree), ReconnectEdge, UpdateImport (remove / re-path), each addressed to the root or a nested board. names: 25 plain, ~115 from "
+    "gen.HostileNames (minus reserved-keyword spellings, newline/empty, and letters with special case folding such as ς ſ K ı: see C06). after every successful edit the state is recompiled from "
     "d2format.Format(g.AST); a refused edit (error) keeps the state and is counted (refused:<op>); elements without marker (new objects, containers "
     "created on the way, raw labels) are re-marked by automatic, fully checked Set calls. a panic inside an API call is a violation of the property "
     "governing the operation (Create/Set C37, Delete C38, Rename/Move C39, *IDDeltas C40, Reconnect/UpdateImport C36). every failing history and "
     "every 8th history is executed twice; differing outcomes are reported as nondeterministic-edit. failing histories are minimised (edits, source "
-    "lines/blocks, op fields) before they are reported. hand-written core: 531 histories (every kind x element x flag on two fixed programs, every "
-    "board of a fixed board tree, an import file set, the design-phase probes). non-trivial = the property's operation succeeded on a non-root-level "
+    "lines/blocks, op fields) before they are reported. hand-written core: 547 histories (every kind x element x flag on two fixed programs, every "
+    "board of a fixed board tree, an import file set, parallel connections with indexed references, the design-phase probes) plus the ~100 committed reproducers. non-trivial = the property's operation succeeded on a non-root-level "
     "element or on a nested board after >= 1 earlier successful edit; distinct by SHA-256 of the case. ")
 
 _COMMON = [
@@ -66,6 +66,7 @@ PROPS = {
               "computed on the graph, then the edit is applied to the same graph; for every marker present before and after: new ID == delta[old ID] "
               "if predicted, else == old ID; no delta for an element the edit removes.",
               ["a prediction that returns an error while the edit succeeds is counted, not asserted",
+               "edits that lose elements they must keep (C38/C39 findings) are not compared with their prediction (counted: unchecked:edit-lost-elements)",
                "only histories in which every element of the addressed board carries a unique marker before and after are compared"]),
     "C41": _p("C41 oracle, edits with a non-empty board path: canon (objects, attributes, connections; nested boards cut off) of every board that "
               "does not start from the addressed one (layers never inherit; a scenario starts from its parent board, step k from step k-1, the first "
